@@ -57,6 +57,9 @@ BOUNDS = {
     "visibility: 4 orbits x 3 propagators x all steps + additional-listener calls on 6 worlds",
 }
 ASSUMPTIONS = [
+    "sign rule at exact zeros: the reference is the three-valued sign (np.sign): an event is due iff sign(g(t_k)) != sign(g(t_k+1)) with "
+    "sign(0) = 0, i.e. 0 -> 0 is no change and 0 <-> +-x is one; sharpness / labels / closed forms are not decided for the degenerate "
+    "pairs (equatorial orbit, Node) and (circular orbit, Apside), whose watched function has no isolated transversal zero",
     "sampling semantics: an event of listener l is due in (t_k, t_k+1] iff sign g_l(t_k) != sign g_l(t_k+1) and the "
     "listener's documented gate holds at t_k+1 (anomaly: |diff|<2 rad i.e. not the +-pi wrap; mask/max/sight: above horizon, "
     "max: elevation not rising); gates are evaluated with an independent elevation model",
@@ -66,7 +69,7 @@ ASSUMPTIONS = [
     "EOP policy 'pass' (zero corrections); stations on a WGS84 ellipsoid (beyond.constants.Earth r, f as data)",
 ]
 NOT_COVERED = (
-    "double crossings inside one sampling step (excluded by the property), g exactly zero at a sample (counted as excluded), "
+    "double crossings inside one sampling step (excluded by the property), sharpness / labels where the watched function is identically zero or pure round-off (equatorial Node, circular Apside), "
     "listeners on non-Earth centres / JPL bodies, steps outside 30-600 s, hyperbolic orbits, more than 2 revolutions, "
     "closed-form times for Node(ITRF)/Terminator/station events (only sampling semantics, sharpness, labels)"
 )
@@ -82,7 +85,15 @@ ORBITS = {
 ALT_ORBITS = {  # second satellite of the same plane for the interleaved-iterator histories (mean anomaly + 180 deg)
     "iss-b": (6778137.0, 0.0012, 51.6, 30.0, 40.0, 197.0),
     "mol-b": (26554000.0, 0.72, 63.4, 350.0, 270.0, 190.0),
+    # exact-zero worlds: equatorial (latitude identically 0.0 for Kepler / KeplerNum / Ephem), circular (r_dot is exact zeros
+    # mixed with round-off), and an orbit whose FIRST sample sits exactly on its ascending node (one exact zero)
+    "equ": (7000000.0, 0.01, 0.0, 17.0, 23.0, 29.0),
+    "circ": (7000000.0, 0.0, 51.6, 17.0, 0.0, 28.0),
+    "iss0": (6778137.0, 0.0012, 51.6, 30.0, 0.0, 0.0),
 }
+# (orbit, listener) pairs whose watched function has no isolated, transversal zeros: only the event LIST (sign rule) and the
+# position of the events are decided there, not sharpness / labels / closed forms
+DEGENERATE = {("equ", "node"), ("circ", "apside")}
 
 
 def _el(name):
@@ -94,6 +105,9 @@ STATIONS = {  # lat, lon [deg], alt [m] : placed near a ground track so that pas
     "sso": (20.0, 5.0, 200.0),
     "gto": (10.0, -5.0, 50.0),
     "mol": (50.0, 10.0, 300.0),
+    "equ": (5.0, 100.0, 0.0),
+    "circ": (35.0, 143.0, 100.0),
+    "iss0": (35.0, 143.0, 100.0),
 }
 MASK_DEG = [[0.0, 90.0, 180.0, 270.0, 360.0], [5.0, 8.0, 3.0, 10.0, 5.0]]
 ANOMS = ("true", "mean", "eccentric", "aol")
@@ -392,7 +406,7 @@ def sgn(x):
 def kepler_elements(orbit):
     from beyond.constants import Earth
 
-    a, e, i, Om, w, M = ORBITS[orbit]
+    a, e, i, Om, w, M = _el(orbit)
     return dict(a=a, e=e, i=math.radians(i), Om=math.radians(Om), w=math.radians(w), M0=math.radians(M),
                 n=math.sqrt(Earth.mu / a ** 3), mu=Earth.mu)
 
@@ -582,10 +596,10 @@ def check_semantics(ctx, items, t, case):
         for k in range(len(samples) - 1):
             g0, g1 = G[j][k], G[j][k + 1]
             got = emitted.pop((k, j), [])
-            if g0 == 0.0 or g1 == 0.0:
-                t.exclude("watched function exactly zero at a sample (sign change not defined)")
-                continue
+            # reference rule = three-valued sign (np.sign): 0 -> 0 is no change, 0 <-> +-x is a change
             due = sgn(g0) != sgn(g1)
+            if g0 == 0.0 or g1 == 0.0:
+                t.outcome("exact zero at a sample: " + ("change" if due else "no change"))
             gate = True
             if due and key.startswith("anom-"):
                 gate = abs(g1) < 2
@@ -618,6 +632,12 @@ def check_semantics(ctx, items, t, case):
                 continue
             ev = got[0]
             nev += 1
+            if (ctx.orbit, key) in DEGENERATE:
+                d = us_of(ev.date)
+                sd = -1 if ctx.backward else 1
+                if not (sd * grid[k] < sd * d <= sd * grid[k + 1]):
+                    t.fail(f"event/outside-step/{lt}", "the emitted state lies between the two samples", case, [grid[k], grid[k + 1]], d)
+                continue
             if key.startswith("anom-") and abs(g1 - g0) > math.pi:
                 # the sign change is the +-pi discontinuity of the wrapped difference, not a zero: the anomaly advanced by
                 # more than pi - 2 rad past the wrap within one step, so the listener's own |diff| < 2 gate let it through and
@@ -658,7 +678,8 @@ def check_event(ctx, j, key, ev, k, samples, g01, t, case):
     W = W_FIXED if key in EARTH_FIXED else W_INERTIAL
     gm, gp = float(L(neighbour(ctx, ev, -sdir * W))), float(L(neighbour(ctx, ev, +sdir * W)))  # before / after in iteration order
     t.trans(2)
-    if not (sgn(gm) != sgn(gp) and sgn(gm) == sgn(g01[0]) and sgn(gp) == sgn(g01[1])):
+    zero_side = g01[0] == 0.0 or g01[1] == 0.0  # (the crossing is AT a sample: the sides are those of the crossing, not of the samples)
+    if not (sgn(gm) != sgn(gp) and (zero_side or (sgn(gm) == sgn(g01[0]) and sgn(gp) == sgn(g01[1])))):
         t.fail(f"event/not-sharp/{lt}" + ("/backward" if ctx.backward else ""), f"the watched quantity changes sign within {W*1e6:.0f} us of the event", case,
                [sgn(g01[0]), sgn(g01[1])], [gm, gp], f"event {_lab(ev)} prop={ctx.prop} step {k}")
     elif abs(gm) != 1.0 and ctx.prop != "sgp4":  # (Sgp4 trajectories are staircases in time: no local slope)
@@ -787,9 +808,13 @@ def check_closed_forms(ctx, events, t, case):
     t_lo, t_hi = min(grid) / 1e6, max(grid) / 1e6
     for j, key in enumerate(ctx.lkeys):
         lt = ltype(key)
+        if (ctx.orbit, key) in DEGENERATE or (ctx.orbit == "equ" and key.startswith(("node", "anom"))) or (ctx.orbit == "circ" and key.startswith("anom")):
+            continue
         mine = [ev for _, ev in events if ev.event.listener is ctx.listeners[j]]
         if ctx.backward:
             mine = mine[::-1]
+        # a crossing exactly ON the first sample is reported right after it (0 -> x is a sign change); the closed-form list is (t_lo, t_hi]
+        mine = [ev for ev in mine if abs(us_of(ev.date) - min(grid)) > 2]
         if key in ("umbra", "penumbra"):
             ref = shadow_crossings(ctx.orbit, t_lo, t_hi)[key]
             ref = [(x, f"{key.title()} {d}") for x, d in ref]
@@ -1042,6 +1067,103 @@ def check_vislist(case, t):
     t.outcome(f"vislist {kw_name} {calls} ok")
 
 
+def check_fromevent(case, t):
+    """A second iteration whose initial orbit is an EVENT state yielded by a first iteration (as the orbit to iterate, or handed to
+    station.visibility): its stream must be the one obtained from the same state without the event tag."""
+    from beyond.dates import timedelta
+
+    orbit, prop, step, first, nth, second = case["orbit"], case["prop"], case["step"], case["first"], case["nth"], case["second"]
+    skey = ("fromevent", orbit, prop, step, tuple(first), nth, second)
+    t.state(skey)
+    ctx = Ctx(orbit, prop, step, first)
+    items = run_stream(ctx, t, case)
+    if items is None:
+        return
+    evs = [x for x in items if x.event is not None]
+    if len(evs) <= nth:
+        t.exclude("from-event case without enough events")
+        return
+    E = evs[nth]
+    clean = E.copy()
+    clean.event = None
+    kw = dict(stop=timedelta(seconds=3600 if ORBITS[orbit][1] < 0.1 else 14400), step=timedelta(seconds=step))
+
+    def second_stream(x):
+        if second == "vis":
+            return list(ctx.station.visibility(x, events=True, **kw))
+        keys = [] if second == "iter-plain" else ["apside", "umbra"] if "node" in first else ["node", "apside"]
+        return list(x.iter(listeners=[make_listener(k, ctx.station) for k in keys], **kw))
+
+    try:
+        ref = _ev_list(second_stream(clean))
+        got_items = second_stream(E)
+        got = _ev_list(got_items)
+    except Exception as e:
+        t.fail(f"iter/raises/{prop}/from-event", "an iteration started from an event state yields a stream", case, "stream", repr(e))
+        return
+    t.trans(len(ref) + len(got))
+    if got != ref:
+        tagged = [x for x, y in zip(got, ref) if y[1] is None and x[1] is not None]
+        t.fail(f"reuse/start-from-event-state/{second}/{prop}", "an iteration (or visibility) started from a state that a previous iteration "
+               "yielded as an event gives the stream of the same state without the tag: plain samples carry no event", case,
+               [x for x in ref if x[1]][:6] + [len(ref)], [x for x in got if x[1]][:6] + [len(got)],
+               f"start state = event {_lab(E)}; {len(tagged)} plain samples carry an event label (e.g. {tagged[:2]}); {len(got)} items vs {len(ref)}")
+        return
+    t.ev(skey)
+    t.outcome(f"fromevent {second} ok")
+
+
+def check_visweave(case, t):
+    """Two live station.visibility(..., events=True) generators advanced alternately (same station and two satellites, same station and
+    the same satellite, two stations): each drained stream must equal the stream of a single generator in a fresh world."""
+    from beyond.dates import timedelta
+    from beyond.frames import create_station
+
+    orbit, prop, step, config, chunk = case["orbit"], case["prop"], case["step"], case["config"], case["chunk"]
+    skey = ("visweave", orbit, prop, step, config, chunk)
+    t.state(skey)
+    s0, s1 = _span(orbit, step)
+    rng = dict(start=_epoch() + timedelta(seconds=s0), stop=_epoch() + timedelta(seconds=s1), step=timedelta(seconds=step))
+
+    def world():
+        ctx = Ctx(orbit, prop, step, [])
+        sta = {"A": ctx.station, "B": create_station("STB" + orbit.upper(), STATION_B[orbit])}
+        sat = {"a": make_orbit(orbit, prop), "b": make_orbit(orbit + "-b", prop)}
+        return sta, sat
+
+    pairs = {"2sat": (("A", "a"), ("A", "b")), "samesat": (("A", "a"), ("A", "a")), "2sta": (("A", "a"), ("B", "a"))}[config]
+    try:
+        ref = []
+        for st_, sa_ in pairs:
+            sta, sat = world()
+            ref.append(_ev_list(sta[st_].visibility(sat[sa_], events=True, **rng)))
+        sta, sat = world()
+        gens = [sta[st_].visibility(sat[sa_], events=True, **rng) for st_, sa_ in pairs]
+        got, live = [[], []], [True, True]
+        while any(live):
+            for i in (0, 1):
+                for _ in range(chunk if live[i] else 0):
+                    try:
+                        got[i].append(next(gens[i]))
+                    except StopIteration:
+                        live[i] = False
+                        break
+        got = [_ev_list(g) for g in got]
+    except Exception as e:
+        t.fail(f"visibility/raises/{prop}", "station.visibility yields a stream", case, "stream", repr(e))
+        return
+    t.trans(sum(len(g) for g in got) + sum(len(r) for r in ref))
+    for i in (0, 1):
+        if got[i] != ref[i]:
+            ge, re_ = [x for x in got[i] if x[1]], [x for x in ref[i] if x[1]]
+            t.fail(f"visibility/interleaved/{config}/{prop}", "two visibility generators advanced alternately each give the stream of a generator "
+                   "consumed alone (every call has listeners of its own)", case, re_[:8], ge[:8],
+                   f"generator {i + 1} {pairs[i]}: {len(ge)} events / {len(got[i])} points vs {len(re_)} / {len(ref[i])} alone")
+            return
+    t.ev(skey)
+    t.outcome(f"visweave {config} ok")
+
+
 STATION_B = {"iss": (-9.0, 6.0, 20.0), "mol": (62.0, -20.0, 100.0), "sso": (-20.0, 168.0, 10.0), "gto": (5.0, 135.0, 10.0)}
 
 
@@ -1055,6 +1177,10 @@ def check_case(case, t):
         return check_ephwin(case, t)
     if kind == "vislist":
         return check_vislist(case, t)
+    if kind == "fromevent":
+        return check_fromevent(case, t)
+    if kind == "visweave":
+        return check_visweave(case, t)
     orbit, prop, step, lkeys, mode = case["orbit"], case["prop"], case["step"], case["lset"], case.get("mode", "range")
     hist = case.get("hist", ["F"])
     bwd = case.get("dir") == "bwd"
@@ -1353,6 +1479,27 @@ def cases(tier):
             for extra in (["node"], ["anom-mean-3", "apside"]):
                 for calls in (["A", "A"], ["A", "B"], ["B", "A", "A"]):
                     out.append(dict(kind="vislist", orbit=orbit, prop=prop, step=step, kw=kw_name, extra=extra, calls=calls))
+    # exact zeros of the watched function
+    for orbit, plist in (("equ", ("kepler", "ephem", "num")), ("circ", ("kepler",)), ("iss0", ("kepler", "ephem"))):
+        for prop in plist:
+            for lset in (["node"], ["apside"], ["node", "apside", "umbra"]):
+                out.append(dict(kind="single" if len(lset) == 1 else "all", orbit=orbit, prop=prop, step=180, mode="range", lset=lset))
+            if not quick:
+                out.append(dict(kind="single", orbit=orbit, prop=prop, step=60, mode="dates", lset=["node"]))
+                out.append(dict(kind="single", orbit=orbit, prop=prop, step=180, mode="dates-list" if prop != "num" else "range", lset=["apside"], **({"dir": "bwd"} if prop != "num" else {})))
+    # second iteration started from an event state of a first one
+    for orbit, step in (("iss", 180),) if quick else (("iss", 180), ("mol", 600), ("sso", 60)):
+        for prop in ("kepler", "num"):
+            for first, nth in ((["node"], 0), (["sig0"], 1), (["apside", "max"], 1)):
+                for second in ("iter", "iter-plain", "vis"):
+                    out.append(dict(kind="fromevent", orbit=orbit, prop=prop, step=step, first=first, nth=nth, second=second))
+    # two live visibility generators advanced alternately
+    for orbit, prop, step in (("iss", "kepler", 180), ("iss", "sgp4", 180)) if quick else (("iss", "kepler", 180), ("iss", "sgp4", 180), ("iss", "num", 180), ("mol", "kepler", 600)):
+        for config in ("2sat", "samesat", "2sta"):
+            for chunk in (1, 3):
+                if quick and prop == "sgp4" and chunk == 3:
+                    continue
+                out.append(dict(kind="visweave", orbit=orbit, prop=prop, step=step, config=config, chunk=chunk))
     # a sample exactly at / one microsecond around an event date
     for orbit in ("iss",) if quick else ("iss", "mol"):
         for prop in props:
@@ -1400,6 +1547,10 @@ PROD_MS = {"kepler": 0.35, "sgp4": 0.15, "ephem": 0.6, "num": 0.6}
 def _cost(c):
     """Estimated CPU seconds of one case."""
     orbit, prop, step = c["orbit"], c["prop"], c["step"]
+    if c["kind"] == "visweave":
+        return 4 * _cost(dict(kind="vis", orbit=orbit, prop=prop, step=step)) / 2.2
+    if c["kind"] == "fromevent":
+        return 1.6 * _cost(dict(kind="single", orbit=orbit, prop=prop, step=step, lset=c["first"] + ["sig0", "max"]))
     s0, s1 = _span(orbit, step, 2 if c["kind"] in ("hist", "weave") else 0)
     nsamp = (s1 - s0) / step
     lset = c.get("lset") or (["sig0", "max", "mask"] + c.get("extra", []))
@@ -1411,7 +1562,7 @@ def _cost(c):
     per_event = 26 * (PROD_MS[prop] + 0.7 * wl / len(lset)) + 8.0
     one_iter = nsamp * (PROD_MS[prop] + 0.67 * wl) + 0.67 * events * per_event
     if prop == "num":
-        one_iter += (s1 - s0) / (60.0 if ORBITS[orbit][1] < 0.1 else 120.0) * 1.3
+        one_iter += (s1 - s0) / (60.0 if _el(orbit)[1] < 0.1 else 120.0) * 1.3
     if prop == "ephem":
         one_iter += (s1 - s0) / 60.0 * 0.35
     check = nsamp * 0.33 * wl + 0.33 * events * per_event
